@@ -79,6 +79,7 @@ def gen_rounds(seed, tier, run):
             out.append(f"rot90 {a} z1 l0,1,0")
         else:
             out.append(f"rot90 {a} z1 l0,0")
+    out = retype(out, rng, set(['flip', 'flipud', 'fliplr', 'roll', 'rot90']))          # other element types for the generic operations
     impl, model = run(out)
     # laws on the implementation's own results
     follow = []
